@@ -76,6 +76,7 @@ class TlsWorld {
     uint64_t steps = 0;
     Fingerprint fp;
     int setup_rc = 0;
+    bool keep_logs = false;         // endpoints record inbound/outbound bytes and application actions (C18)
 
     ~TlsWorld();
     bool setup(const PairCfg &c);                 // load keys (both sides)
